@@ -1,4 +1,6 @@
 SPECIFICATION Spec
-CONSTANT CfgSet <- OneCfg
+CONSTANTS
+  LegacyPlan = FALSE
+  CfgSet <- OneCfg
 INVARIANTS SchedOut InBounds Disjoint Tiling RowOrder
 CHECK_DEADLOCK FALSE
